@@ -236,20 +236,25 @@ func (c *Chain) CommitExec(b *types.Block) (store.ExecuteResult, error) {
 	if err != nil {
 		return res, fmt.Errorf("ExecuteBlock: %w", err)
 	}
+	return res, c.SubmitExecuted(b, res)
+}
+
+// SubmitExecuted is the second half of CommitExec: SubmitBlock of an already executed block.
+func (c *Chain) SubmitExecuted(b *types.Block, res store.ExecuteResult) error {
 	var msg *types.CrossChainMsg
 	if res.CrossStatesRoot != common.UINT256_EMPTY {
 		msg = &types.CrossChainMsg{Version: types.CURR_CROSS_STATES_VERSION, Height: b.Header.Height, StatesRoot: res.CrossStatesRoot}
 		h := msg.Hash()
 		sig, err := signature.Sign(c.BK, h[:])
 		if err != nil {
-			return res, err
+			return err
 		}
 		msg.SigData = [][]byte{sig}
 	}
 	if err := c.Ledger.SubmitBlock(b, msg, res); err != nil {
-		return res, fmt.Errorf("SubmitBlock: %w", err)
+		return fmt.Errorf("SubmitBlock: %w", err)
 	}
-	return res, nil
+	return nil
 }
 
 // CommitSync commits through the sync path AddBlock.
